@@ -27,6 +27,7 @@ ASSUMPTIONS = ['Pool.starmap chunking follows CPython (chunksize = ceil(ntasks /
                'ensemble members that yield different numbers of IMFs are averaged over the IMFs present in all members']
 
 _orig = {}
+_serial_ceemd = {}
 
 
 def install_seams():
@@ -96,6 +97,11 @@ def build_cases(tier, seed):
                 C, cs = nchunks(E, P)
                 for rgs in enum.restricted_growth_strings(C, P):
                     out.append(('ens', si, E, P, mode, 0.2, rgs, seed))
+    # larger scope: an ensemble of well over a thousand members - all pairwise different (a noise source with few
+    # distinct states, e.g. short per-member seeds, repeats itself long before that)
+    for (E, P) in ((1500, 1),) if tier == 'quick' else ((1500, 1), (3000, 2)):
+        C, cs = nchunks(E, P)
+        out.append(('ens', 0, E, P, 'single', 0.2, tuple(i % P for i in range(C)), seed))
     # integer-typed input (ADC counts): same rules
     for mode in ('single', 'flip'):
         for sg in (0.0, 0.3):
@@ -256,6 +262,20 @@ def check_case(case):
     if got.shape != want.shape or not np.max(np.abs(got - want)) <= scale:
         viols.append(('%s:not-the-mean' % kind, '%s: output differs from the mean of member decompositions (shape %r vs %r%s)' % (
             tag, got.shape, want.shape, '' if got.shape != want.shape else ', max diff %.3g' % np.max(np.abs(got - want)))))
+    # (2b) complete ensemble: every later layer pairs each member with ITS OWN noise column, so the whole result (IMFs
+    # and the returned noise matrix) is that of the one-process run with the same random stream
+    if kind == 'ceemd':
+        key = (si, E, mode, sg, seed)
+        if key not in _serial_ceemd:
+            import emd.sift as S
+            np.random.seed(100 + seed)
+            with forkpool.installed(forkpool.SerialMP()):
+                r_imf, r_nz = S.complete_ensemble_sift(x.copy(), nensembles=E, nprocesses=1, noise_mode=mode, ensemble_noise=sg, max_imfs=2)
+            _serial_ceemd[key] = (np.asarray(r_imf), np.asarray(r_nz))
+            del forkpool.TRACE[:]
+        r_imf, r_nz = _serial_ceemd[key]
+        if imf.shape != r_imf.shape or nz.shape != r_nz.shape or not (np.max(np.abs(imf - r_imf)) <= scale and np.max(np.abs(nz - r_nz)) <= scale * 10):
+            viols.append(('ceemd:depends-on-schedule', '%s: IMFs / noise matrix differ from the one-process run with the same random stream' % tag))
     # (3) zero noise reduces to the classic sift
     if sg == 0 and kind == 'ens' and not nocap:
         ref = np.asarray(_orig['sift'](x.copy(), max_imfs=2))
@@ -384,6 +404,6 @@ def nonvacuity(rep, ctx):
     errs = []
     if not need <= set(rep.classes):
         errs.append('vacuous: outcome classes %r' % dict(rep.classes))
-    if rep.validated == 0:
+    if rep.validated == 0 and 'conformance' not in rep.viols:
         errs.append('no real-pool conformance run could be validated')
     return errs
